@@ -220,6 +220,8 @@ def zbool(v):
         if k == "opt":
             return v.t != v.ty.sort().none
         if k == "u":
+            if v.ty.name in TRUTH:
+                return TRUTH[v.ty.name](v)
             return z3.BoolVal(True)
         raise Unsupported(f"truthiness of {v.ty!r}")
     return z3.BoolVal(bool(v))
@@ -356,6 +358,7 @@ def arith(op, a, b):
 
 
 SYM_ARITH: dict = {}  # sort name -> handler(op, a, b)
+TRUTH: dict = {}  # sort name -> callable(sv) -> z3 Bool (python truthiness of such objects)
 NONE_TEST: dict = {}  # sort name -> callable(sv) -> SV bool  (value may be None)
 SYM_COMPARE: dict = {}
 SYM_UNARY: dict = {}
